@@ -6,8 +6,15 @@
    spelling variants, percent/env tokens; server side: AuthorizedKeysFile with
    %u and hostile user names) as initial states and checks FirstWins,
    Accumulates, IncludeInPlace, IncludeRestores, NoUnsafeExpansion on every
-   one; sensitivity runs (lists first-wins, '!' ignored, Include leaking its
-   match state) must violate; witnesses show that second passes happen.
+   one; sensitivity runs (lists first-wins, '!' ignored, '!' sticky, a first
+   "none" treated as unset, Include leaking its match state) must violate;
+   witnesses show that second passes happen.  Besides free programs there
+   are generated Host/Match lines (every pair of criteria in every negation
+   placement) and value-class programs: the same option twice, every ordered
+   pair of its value classes (ordinary, "none" in several spellings, quoted
+   empty, the default, boolean spellings, numbers, +/-/^ lists, list values)
+   in two matching blocks, across Include, in two files given as a list, and
+   in an options object chained on another one (also with a final pass).
 2. Every case printed by TLC is pretty-printed to real files under
    /verif/.work and loaded with SSHClientConfig.load (first pass and the
    second pass as Options.update makes it), a sample also through
@@ -256,7 +263,10 @@ class Replayer:
                     f'{world.texts()} for {target}: building the second '
                     f'options object changed what the first one resolves '
                     f'to: {changed[0]} -> {changed[1]}', replay)
-        if (self.n % 6 == 0 or two_pass or alts) and 'ProxyJump' not in names:
+        q = self.ctx.tier == 'quick'
+        if (self.n % (12 if q else 6) == 0 or
+                ((two_pass or alts) and (x or not q or self.n % 2 == 0))) \
+                and 'ProxyJump' not in names:
             # the whole resolution, by the library's own connect() code
             whole = self.connector.resolve(world, target)
             checks.append(('resolution', cd.norm(whole)
@@ -654,6 +664,18 @@ def _main(ctx, cd, root):
         'IdentityFile entries and repeats SendEnv in its second pass)',
         'an Include inside a non-matching block that itself contains "Match '
         'final" is not generated (ssh still requests a final pass then)',
+        'value classes: "User none" is not generated (ssh takes it as the '
+        'user name "none", asyncssh as "unset"); a quoted empty value only '
+        'for ProxyJump (ssh rejects it elsewhere); numbers with time units '
+        'only in RekeyLimit: asyncssh rejects "ConnectTimeout 1m" / '
+        '"ServerAliveInterval 1m" with ConfigParseError where ssh reads 60 '
+        '(loud, recorded, not judged)',
+        'ssh keeps RekeyLimit size/time and ForwardAgent flag/socket as two '
+        'first-value-wins fields each (a later line can fill the field the '
+        'first line left open); the rule here is first obtained LINE wins, '
+        'as asyncssh does; those mixed pairs are not compared with ssh -G',
+        'chained options objects (options=base, config=B) must resolve like '
+        'the files of base followed by B, and must leave base unchanged',
         'server side: the unsafe-name rule is the one documented in '
         'SSHServerConfig._set_tokens; the verdict only requires that an '
         'unsafe name is not substituted and that no resulting path leaves '
